@@ -356,13 +356,15 @@ def _b_specific(model, rep, R):
     rep.check(has_if(pf, "rounds == 0", ["raise uh.exc.MalformedHashError(cls, 'explicit zero rounds')"]), R, s, "explicit zero refused", "sun-md5: `rounds=0` written out is refused (it would re-render as '$md5$')")
     rep.check(has_if(pf, "rstr != str(rounds)", ["raise uh.exc.ZeroPaddedRoundsError(cls)"]), R, s, "canonical decimal only", "sun-md5: the rounds text must be what str() renders")
     # bare-salt classification: which '$' layout yields which flag
-    want = [("chk_idx == -1", "True"), ("chk_idx == len(hash) - 1", "False"), ("chk_idx > 0 and hash[chk_idx - 1] == '$'", "False")]
+    want = [("chk_idx == -1", "True"), ("chk_idx == len(hash) - 1", "False"), ("chk_idx > salt_idx and hash[chk_idx - 1] == '$'", "False")]
     for test, flag in want:
         f = find_if(pf, test)
         got = [ast.unparse(x) for x in f[0].body if ast.unparse(x).startswith("bare_salt")] if f else []
         rep.check(got == [f"bare_salt = {flag}"], R, s, f"{test} -> {got}", f"sun-md5: layout `{test}` means bare_salt = {flag} (what to_string's `ss` writes back)",
                   witness="a bare-salt hash is re-rendered in the '$$' form (or vice versa) and no longer verifies")
-    f = find_if(pf, "chk_idx > 0 and hash[chk_idx - 1] == '$'")
+    # the `$$` test looks at the character *before* the digest separator: that character must lie inside the salt region
+    # (index >= salt_idx); with `chk_idx > 0` an empty salt makes it look at the `$` that ends the ident / rounds field
+    f = find_if(pf, "chk_idx > salt_idx and hash[chk_idx - 1] == '$'")
     if f:
         rep.check([ast.unparse(x) for x in f[0].orelse if ast.unparse(x).startswith("bare_salt")] == ["bare_salt = True"], R, s, "single '$' before digest -> bare", "sun-md5: one '$' before the digest means bare salt")
     # argon2: version 16 has no field
@@ -766,6 +768,16 @@ def rule_g(model, rep, table):
     for g in ("salt", "hash"):
         rej = T.group_rejects(pat, flags, g, B64)
         rep.check(rej == "", R, site(pu.name, "PHC_REGEX") + f" {g} alphabet", f"{g} class rejects {rej!r}", f"PHC field `{g}` accepts every base64 character")
+    # the PHC helper that encodes salts must emit only characters the record regex accepts (PHC B64 = standard alphabet, no padding)
+    pe = model.func(pu.name, "phc_b64_encode")
+    enc = [ast.unparse(c.func) for c in walk_no_nested(pe) if isinstance(c, ast.Call) and ast.unparse(c.func).endswith("b64encode")]
+    extra = {"base64.b64encode": "+/", "base64.standard_b64encode": "+/", "base64.urlsafe_b64encode": "-_"}.get(enc[0] if enc else "", None)
+    if extra is None:
+        rep.undecided(R, site(pu.name, "phc_b64_encode"), f"encoder call not recognised: {enc}")
+    else:
+        rej = T.group_rejects(fold_regex(model, pu, pu.assigns["PHC_REGEX"][0])[0], 0, "salt", extra)
+        rep.check(rej == "", R, site(pu.name, "phc_b64_encode"), f"{enc[0]} emits {extra!r}; PHC_REGEX salt class rejects {rej!r}", "phc_b64_encode() stays inside the alphabet PHC_REGEX accepts",
+                  witness="a record built with salt=phc_b64_encode('salt with ???') renders '..._Pw' and inspect_phc() returns None for the library's own output")
     # libpass pbkdf2: adapted base64 (./0-9A-Za-z) in salt and digest
     lu = model.unit("libpass.inspect.pbkdf2")
     pat, flags = _class_regex(model, ("libpass.inspect.pbkdf2", "BasePBKDF2CryptInfo"), lu, "REGEX")
@@ -786,6 +798,14 @@ def rule_g(model, rep, table):
     for g in ("salt", "hash"):
         rej = T.group_rejects(pat, flags, g, H64)
         rep.check(rej == "", R, site(bu.name, "BCRYPT_HASH_REGEX") + f" {g} alphabet", f"{g} class rejects {rej!r}", f"bcrypt field `{g}` accepts every bcrypt64 character")
+    # a field that is followed by a literal separator must not be able to contain that separator: otherwise the regex engine can move the
+    # split point (with an optional group in front, '$5$rounds=1000$$digest' is read as implicit rounds + salt 'rounds=1000$')
+    for lun, cn, attr in (("libpass.inspect.sha_crypt", "SHA256CryptInfo", "REGEX"), ("libpass.inspect.sha_crypt", "SHA512CryptInfo", "REGEX"), ("libpass.inspect.pbkdf2", "BasePBKDF2CryptInfo", "REGEX")):
+        pat, flags = _class_regex(model, (lun, cn), model.unit(lun), attr)
+        for g in ("salt", "hash"):
+            rej = T.group_rejects(pat, flags, g, "$")
+            rep.check(rej == "$", R, site(lun, f"{cn}.{attr}") + f" {g} excludes '$'", f"`{g}` class accepts the separator '$'", f"field `{g}` cannot contain the '$' that separates the fields",
+                      witness="inspect_sha_crypt('$5$rounds=1000$$<digest>') (what passlib renders for salt_size=0) reports rounds=None, salt='rounds=1000$': the libpass hasher then rejects the correct password")
     # ldap digests: base64 lengths from digest sizes
     from pv.handlers import DIGEST_SIZES
     L = H + "ldap_digests"
